@@ -26,8 +26,12 @@ def gen_market(rng, mnum, t0, opts):
     lad = LADDER if dyadic else DEC_LADDER
     nrun = rng.randint(2, 3)
     n = rng.randint(opts.get("min_updates", 5), opts.get("max_updates", 12))
-    runners = [{"id": 1 + i, "idx": rng.randrange(2, len(lad) - 3), "trd": {}, "af": rng.choice([10.0, 20.0, 30.0, 2.0, 45.5]),
+    runners = [{"id": 1 + i, "hc": 0, "idx": rng.randrange(2, len(lad) - 3), "trd": {}, "af": rng.choice([10.0, 20.0, 30.0, 2.0, 45.5]),
                 "status": "ACTIVE"} for i in range(nrun)]
+    if rng.random() < opts.get("p_handicap", 0.0):
+        # handicap market: the same selection id on several lines
+        runners = [{"id": 1 + i // 2, "hc": (-0.5 if i % 2 == 0 else 0.5), "idx": rng.randrange(2, len(lad) - 3), "trd": {}, "af": None,
+                    "status": "ACTIVE"} for i in range(4)]
     pt = t0
     version = 1
     status = "OPEN"
@@ -66,17 +70,20 @@ def gen_market(rng, mnum, t0, opts):
                         r["trd"][p] = round(r["trd"].get(p, 0.0) + gen_size(rng, dyadic) * 2, 2)
                 if status != "OPEN":
                     atb, atl = [], []
-                rs.append({"id": r["id"], "hc": 0, "status": "ACTIVE", "af": r["af"], "sp": r.get("sp"), "atb": atb, "atl": atl,
+                rs.append({"id": r["id"], "hc": r["hc"], "status": "ACTIVE", "af": r["af"], "sp": r.get("sp"), "atb": atb, "atl": atl,
                            "trd": [[p, s] for p, s in r["trd"].items()]})
             else:
-                rs.append({"id": r["id"], "hc": 0, "status": r["status"], "af": r["af"], "sp": None, "atb": [], "atl": [], "trd": []})
+                rs.append({"id": r["id"], "hc": r["hc"], "status": r["status"], "af": r["af"], "sp": None, "atb": [], "atl": [], "trd": []})
         updates.append({"pt": pt, "status": status, "version": version, "inplay": inplay, "bsp_rec": bsp_rec, "bsp_market": True,
                         "bet_delay": bet_delay, "runners": rs, "acts": {}})
     if close:
         pt += rng.choice([1000, 5000])
         act = [r for r in runners if r["status"] == "ACTIVE"]
         winners = rng.sample(act, rng.choice([1, 1, 1, 2]) if len(act) > 1 else 1)
-        rs = [{"id": r["id"], "hc": 0, "status": ("WINNER" if r in winners else "LOSER") if r["status"] == "ACTIVE" else "REMOVED",
+        if any(r["hc"] for r in runners):
+            # handicap lines settle independently: one winning line per selection
+            winners = [r for r in act if (r["hc"] < 0) == (r["id"] % 2 == 0)]
+        rs = [{"id": r["id"], "hc": r["hc"], "status": ("WINNER" if r in winners else "LOSER") if r["status"] == "ACTIVE" else "REMOVED",
                "af": r["af"], "sp": r.get("sp"), "atb": [], "atl": [], "trd": []} for r in runners]
         updates.append({"pt": pt, "status": "CLOSED", "version": version + 1, "inplay": inplay, "bsp_rec": bsp_rec, "bsp_market": True,
                         "bet_delay": bet_delay, "runners": rs, "acts": {}})
@@ -117,6 +124,10 @@ def gen_scenario(rng, **opts):
                           "max_market": rng.choice([None, None, 30, 100]), "max_trade": rng.choice([1000000, 1000000, 2, 3]),
                           "max_live": rng.choice([1, 2, 5, 5]), "multi": rng.random() < 0.4} for _ in range(ns)],
           "markets": markets}
+    if opts.get("subset_subscriptions") and nm > 1:
+        for st in sc["strategies"]:
+            k = rng.randint(1, nm)
+            st["markets"] = sorted(rng.sample(range(nm), k))
     # ---- scripts
     okey = 0
     tkey = 0
@@ -128,7 +139,7 @@ def gen_scenario(rng, **opts):
             if u["status"] == "CLOSED":
                 continue
             for si in range(ns):
-                if rng.random() > p_act:
+                if rng.random() > p_act or mi not in sc["strategies"][si]["markets"]:
                     continue
                 acts = []
                 mine = own.setdefault((si, mi), [])
@@ -145,8 +156,9 @@ def gen_scenario(rng, **opts):
                             tk = rng.choice(mine)[1]
                             sel = trades_of[tk]
                             new = False
+                            r = next((x for x in u["runners"] if (x["id"], x.get("hc", 0)) == sel), r)
                         else:
-                            tk, new, sel = tkey, True, r["id"]
+                            tk, new, sel = tkey, True, (r["id"], r.get("hc", 0))
                             tkey += 1
                             trades_of[tk] = sel
                         side = rng.choice(["BACK", "LAY"])
@@ -161,7 +173,7 @@ def gen_scenario(rng, **opts):
                         minfill = rng.choice([None, round(size / 2, 2) or None]) if fok else None
                         okind = "L" if kind == "new" else rng.choice(["LOC", "MOC"])
                         pers = rng.choice(["LAPSE", "LAPSE", "PERSIST", "MARKET_ON_CLOSE"])
-                        acts.append(["create", okey, tk, new, sel, 0, side, okind, price, size, gen_size(rng, dyadic), pers, fok, minfill, "C",
+                        acts.append(["create", okey, tk, new, sel[0], sel[1], side, okind, price, size, gen_size(rng, dyadic), pers, fok, minfill, "C",
                                      rng.choice([0, 0, 0, 0.5, 10]), rng.choice([0, 0, 0, 1, 30])])
                         ver = rng.choice([None, None, None, u["version"], u["version"] + 1])
                         acts.append(["place", "t%d" % tk, ver, rng.random() < 0.04])
